@@ -153,6 +153,8 @@ def gen_program(rng, kind, ntx=None, small=False, multi_undo=None):
             undoable = []
     if canundo and rng.random() < (0.35 if multi_undo is None else multi_undo):
         tid = multi_undo_scenario(rng, steps, tid, rng.choice([2, 2, 3]))
+    if kind == 'fileblob' and rng.random() < 0.7:
+        tid = blob_undo_scenario(rng, steps, tid)
     if canundo and rng.random() < (0.35 if multi_undo is None else multi_undo):
         tid = uncreation_chain_scenario(rng, steps, tid, rng.choice([3, 4, 5]), candel and rng.random() < 0.5)
     return dict(kind=kind, steps=steps, split=split)
@@ -180,6 +182,29 @@ def multi_undo_scenario(rng, steps, tid, k):
     add([['u', r] for r in reversed(revs[1:])])
     last = add([['s', oid, mkdata(oid, n + k + 1, rng).hex()]])
     add([['u', last]])
+    return tid
+
+
+def blob_undo_scenario(rng, steps, tid):
+    """append: a blob, a modification of it, the undo of the modification (a back-pointer record whose
+    blob file <oid>/<undo tid>.blob exists separately), optionally the undo of that undo / a further
+    revision: every (oid, tid) blob file must be in a blob-aware copy, the undo records' too."""
+    oid = 11
+
+    def add(ops, d=b'blob.undo'):
+        nonlocal tid
+        steps.append(dict(t=tid, u='', d=d.hex(), e=None, ops=ops))
+        tid += GAP
+        return len(steps) - 1
+    n = 3000 + len(steps)
+    add([['b', oid, mkblobdata(n).hex(), (b'first blob revision %d' % n).hex()]])
+    mod = add([['b', oid, mkblobdata(n + 1).hex(), (b'second blob revision %d' % n).hex()]])
+    last = add([['u', mod]])
+    r = rng.random()
+    if r < 0.35:
+        add([['u', last]])
+    elif r < 0.6:
+        add([['b', oid, mkblobdata(n + 2).hex(), b'third'.hex()]])
     return tid
 
 
@@ -473,7 +498,7 @@ def history_oracle(dump):
 
 
 # =================================================================== (a) copy cases
-SRC_KINDS = ['file', 'file', 'file', 'fileblob', 'mapping', 'demo-mf', 'demo-ff', 'demo-mm', 'demo-bm']
+SRC_KINDS = ['file', 'file', 'fileblob', 'fileblob', 'mapping', 'demo-mf', 'demo-ff', 'demo-mm', 'demo-bm']
 DST_KINDS = ['file', 'fileblob', 'blobwrap']
 
 
@@ -699,7 +724,8 @@ def nontrivial_copy(res):
 def gen_copy_case(rng, i):
     kind = SRC_KINDS[i % len(SRC_KINDS)]
     prog = gen_program(rng, kind)
-    dst = rng.choice(DST_KINDS if kind != 'demo-bm' else ['fileblob', 'blobwrap'])
+    dst = rng.choice(DST_KINDS if kind not in ('demo-bm', 'fileblob') or rng.random() < 0.2
+                     else ['fileblob', 'blobwrap'])
     case = dict(part='copy', prog=prog, dst=dst)
     if rng.random() < 0.3:
         ts = [s['t'] for s in txn_steps(prog)]
@@ -856,6 +882,19 @@ def judge_recover(raw, txns, oview, dmg, obs):
             return 'violation', 'C17:recover-partial-transaction', \
                 'output transaction %s has %d of the %d records of the input transaction' % (
                     bad[0], len(bad[5]), len(o[5]))
+    # an input transaction output with other data for a back-pointer record although, in the image,
+    # that pointer does not lead to a record of the same object: the record iterator verifies exactly
+    # this (getTxnFromData(oid, back)), such a transaction must be dropped, never output altered
+    for o, t in zip(oview, txns):
+        if o[:5] == bad[:5] and [r[:2] for r in o[5]] == [r[:2] for r in bad[5]]:
+            for ro, rb, r in zip(o[5], bad[5], t['recs']):
+                if ro != rb and r['plen'] == 0 and r['back'] and not (r['pos'] < de and ds < r['pos'] + 42) \
+                        and r['pos'] + 50 <= len(img):
+                    back = u64(img[r['pos'] + 42:r['pos'] + 50])
+                    if back and back + 8 <= len(img) and img[back:back + 8] != r['oid']:
+                        return 'violation', 'C17:recover-unverified-back-pointer', \
+                            'output transaction %s carries %r for oid %s, read through a back pointer (%d) ' \
+                            'that does not lead to a record of that object' % (bad[0], rb[2], r['oid'].hex(), back)
     # hypothesis of the theorem (NoFalseResync / ClosedBack), evaluated on the damaged image:
     intact_starts = {t['pos'] for t in txns if t['pos'] >= de}
     dstart = txns[npre]['pos'] if npre < len(txns) else len(raw)
@@ -1131,6 +1170,17 @@ def gen_damages(rng, raw, txns, ntrunc, nwin, thorough_all=False):
                 tgt = rng.choice([r['pos'], r['pos'] + 50, r['back'] + 1 if r['back'] else 4, len(raw) - 10])
                 dmgs.append(dict(kind='win', off=r['pos'] + 42, fill=p64(tgt).hex(), cls='backptr',
                                  fk='craft', crafted='backcycle' if tgt == r['pos'] else 'ptr'))
+            if r['plen'] == 0 and r['back'] and rng.random() < 0.6:
+                # damage reached only THROUGH the pointer: the record pointed at is zero-filled, or the
+                # pointer is redirected to a record of ANOTHER object
+                tr = [x for tt in txns for x in tt['recs'] if x['pos'] == r['back']]
+                others = [x for tt in txns for x in tt['recs'] if x['oid'] != r['oid'] and x['pos'] < r['pos']]
+                if tr and rng.random() < 0.5:
+                    dmgs.append(dict(kind='win', off=tr[0]['pos'], fill='00' * (tr[0]['end'] - tr[0]['pos']),
+                                     cls='pickle', fk='craft', crafted='zero-target'))
+                elif others:
+                    dmgs.append(dict(kind='win', off=r['pos'] + 42, fill=p64(rng.choice(others)['pos']).hex(),
+                                     cls='backptr', fk='craft', crafted='ptr-other-oid'))
             elif r['plen'] and rng.random() < 0.1:
                 # turn a data record into a back-pointer record pointing at itself
                 dmgs.append(dict(kind='win', off=r['pos'] + 34, fill=(p64(0) + p64(r['pos'])).hex(),
